@@ -172,7 +172,7 @@ func init() {
 			"operands are never accepted and dropped (R-LISTUSE); an empty literal never makes operands of different kinds match (R-TYPEREL).",
 		NotDecided:  "That each static check's predicate is right for every program (scope, type and termination predicates are value-level).",
 		Assumptions: []string{"advancePastNL is the only routine that discards more than one token"},
-		Rules:       []*Rule{ruleEOLState, ruleParseGate, ruleTermConj, ruleScopePairParser, ruleListUse, ruleTypeRel},
+		Rules:       []*Rule{ruleEOLState, ruleParseGate, ruleTermConj, ruleScopePairParser, ruleListUse, ruleTypeRel, ruleBlindAdv},
 	})
 }
 
@@ -207,10 +207,11 @@ func init() {
 			"diagnosed and every end-of-line comment is recorded before its line is skipped (R-EOLSTATE, comment clause included); the formatter " +
 			"has a case for every node kind, so it never prints its placeholder (R-EXHAUST/format), and reads every source-bearing field of every " +
 			"node type (R-FIELDCOV/format); every array/map literal node is registered in the layout table on every path that returns it (R-LAYOUTKEY); " +
-			"the text of a string literal reaches the output only through strconv.Quote (R-INDENTPAIR); parsed operand lists are never partly dropped (R-LISTUSE).",
+			"the text of a string literal reaches the output only through strconv.Quote (R-INDENTPAIR); parsed operand lists are never partly dropped (R-LISTUSE); " +
+			"the parser never steps over a token it has not examined (R-BLINDADV).",
 		NotDecided:  "Token-sequence equality, re-parse equality, comment placement inside multi-line literals, expression re-binding — these need the output text.",
 		Assumptions: []string{},
-		Rules:       []*Rule{ruleEOLState, exhaustRule("format", 25), fieldCovRule("format"), ruleLayoutKey, ruleNoInPlace, ruleIndentPair, ruleListUse},
+		Rules:       []*Rule{ruleEOLState, exhaustRule("format", 25), fieldCovRule("format"), ruleLayoutKey, ruleNoInPlace, ruleIndentPair, ruleListUse, ruleBlindAdv},
 	})
 }
 
